@@ -253,8 +253,10 @@ def replay(ctx, path):
         return 1
     bad = 0
     # a check module may judge a replayed case itself (`replay_judge(case, go_res, lean_res) -> list of reasons`),
-    # e.g. when the implementation line carries oracle fields the model line does not have
+    # e.g. when the implementation line carries oracle fields the model line does not have, or say which
+    # fields of a result line take part in the comparison (`replay_proj`)
     judge = getattr(load_check(ctx.prop), 'replay_judge', None)
+    rproj = getattr(load_check(ctx.prop), 'replay_proj', None)
     for c, g, l in R.replay_cases(ctx, lines):
         print(c)
         print('  implementation:', g)
@@ -264,6 +266,9 @@ def replay(ctx, path):
             for r in reasons:
                 print('  ->', r)
             if reasons:
+                bad += 1
+        elif rproj is not None:
+            if rproj(R.parse_res(g)) != rproj(R.parse_res(l)):
                 bad += 1
         elif R.parse_res(g).get('_raw', '').split()[2:] != R.parse_res(l).get('_raw', '').split()[2:]:
             bad += 1
